@@ -18,7 +18,6 @@ inductive COp where
   | storeMeta (k : Str) (status : Str)
   | store (st : EState)
   | remove (k : Str)
-  | metas (l : List (Str × Str))     -- a run of consecutive metadata writes (only produced by `canonTrace`): last status per key
   deriving Repr, Inhabited
 
 /-- oracle world: remaining answers, trace so far (oldest first), call log, and whether a `get` found no answer left -/
@@ -38,24 +37,22 @@ def OW.emit (w : OW) (op : COp) : OW := if w.starved then w else { w with trace 
 def OW.storeMeta (w : OW) (k : Str) (status : Str) : OW := w.emit (.storeMeta k status)
 def OW.store (w : OW) (s : EState) : OW := w.emit (.store s)
 def OW.remove (w : OW) (k : Str) : OW := w.emit (.remove k)
-def OW.ancMeta (w : OW) (anc : Ancestors) : OW :=
-  anc.foldl (fun w a => if a.2 then w.storeMeta a.1 (s "evaluation") else w) w
 def OW.log (w : OW) (c : Str) : OW := if w.starved then w else { w with calls := w.calls ++ [c] }
 
 mutual
   /-- `Context.evaluate(text)`: parse, then evaluate -/
-  def evalTextO (env : Env) : Nat → OW → Str → Bool → Ancestors → OW × Outcome
-    | 0, w, _, _, _ => (w, .unmodelled)
-    | n + 1, w, text, useGlobal, anc =>
+  def evalTextO (env : Env) : Nat → OW → Str → Bool → OW × Outcome
+    | 0, w, _, _ => (w, .unmodelled)
+    | n + 1, w, text, useGlobal =>
       match parse env.dec text with
       | none => (w, .parseError)
-      | some q => evalQO env n w q text .none none useGlobal anc
+      | some q => evalQO env n w q text .none none useGlobal
 
   /-- `Context.evaluate(query)` with `rawQuery` the text metadata is filed under; `useCache = false` models the
   `NoCache()` that an injected input value / `evaluate_on` selects for this chain of predecessors -/
-  def evalQO (env : Env) : Nat → OW → Query → Str → Extra → Option Val → Bool → Ancestors → OW × Outcome
-    | 0, w, _, _, _, _, _, _ => (w, .unmodelled)
-    | n + 1, w, q, rawQuery, extra, input, useCache, anc =>
+  def evalQO (env : Env) : Nat → OW → Query → Str → Extra → Option Val → Bool → OW × Outcome
+    | 0, w, _, _, _, _, _ => (w, .unmodelled)
+    | n + 1, w, q, rawQuery, extra, input, useCache =>
       let tbl := Gen.escapeTable
       let key := q.encode tbl
       let (w, hit) : OW × Option EState := if extra.isEmpty && input.isNone && useCache then w.ask key else (w, none)
@@ -75,7 +72,7 @@ mutual
             else
               let pk := p.encode tbl
               let w0 := if useCache then w.storeMeta rawQuery (s "evaluating parent") else w
-              let (w1, o) := evalQO env n w0 p pk .none input useCache ((rawQuery, useCache) :: anc)
+              let (w1, o) := evalQO env n w0 p pk .none input useCache
               (w1, o, pk, r)
         let (o, parentQuery, r) := pre
         match o with
@@ -97,7 +94,7 @@ mutual
                         else if st2.caching && !st2.volatile then w1.store st2 else w1.remove key
               (w2, .st st2)
             | some (.transform _ [a] none) =>
-              let (w2, o2) := evalActionO env n w1 st a rawQuery parentQuery extra useCache anc
+              let (w2, o2) := evalActionO env n w1 st a rawQuery parentQuery extra useCache
               (match o2 with
                | .st st2 =>
                  let st3 := { st2 with query := key }
@@ -110,14 +107,14 @@ mutual
             | some _ => (w1, .unmodelled)
 
   /-- `Context.evaluate_action` for a command action -/
-  def evalActionO (env : Env) : Nat → OW → EState → Action → Str → Str → Extra → Bool → Ancestors → OW × Outcome
-    | 0, w, _, _, _, _, _, _, _ => (w, .unmodelled)
-    | n + 1, w, st, act, rawQuery, parentQuery, extra, useCache, anc =>
+  def evalActionO (env : Env) : Nat → OW → EState → Action → Str → Str → Extra → Bool → OW × Outcome
+    | 0, w, _, _, _, _, _, _ => (w, .unmodelled)
+    | n + 1, w, st, act, rawQuery, parentQuery, extra, useCache =>
       let tbl := Gen.escapeTable
       let w := if useCache then w.storeMeta rawQuery (s "evaluation") else w
       let cmds := [act.toList tbl]
       let failAt (w : OW) (attrs : List (Str × Str)) (vol : Bool) (pos : Option Nat) (q : Option Str) : OW × Outcome :=
-        (((if useCache then w.storeMeta rawQuery (s "error") else w).ancMeta anc), .st { st with data := .none, isError := true, status := s "error", commands := cmds, attrs := attrs, volatile := st.volatile || vol, errPos := pos, errQuery := q })
+        ((if useCache then w.storeMeta rawQuery (s "error") else w), .st { st with data := .none, isError := true, status := s "error", commands := cmds, attrs := attrs, volatile := st.volatile || vol, errPos := pos, errQuery := q })
       let failState (w : OW) (attrs : List (Str × Str)) (vol : Bool) : OW × Outcome :=
         failAt w attrs vol (some act.pos) (some rawQuery)
       match namespacesOf st.vars with
@@ -128,9 +125,9 @@ mutual
         | none => failState w (mergeAttrs st.attrs []) false
         | some sig =>
           -- parameters, left to right
-          match evalParamsO env n w act.params rawQuery parentQuery useCache anc with
+          match evalParamsO env n w act.params rawQuery parentQuery with
           | (w1, .inr o) => (w1, o)
-          | (w1, .inl (given, selfOn)) =>
+          | (w1, .inl given) =>
             let (given, kwargs, extraVol) : List PVal × List (Str × Val) × Bool :=
               match extra with
               | .none => (given, [], false)
@@ -145,7 +142,7 @@ mutual
               let w2 := if isLibraryCommand sig.name then w1
                         else w1.log (callText sig.ns sig.name (if sig.first then .none else st.data) args)
               let done (w : OW) (v : Val) (vars : Vars) (caching : Bool) : OW × Outcome :=
-                (((if useCache then w.storeMeta rawQuery statusReady else w).ancMeta anc), .st { st with data := v, vars := st.vars.update vars, status := statusReady, commands := cmds, attrs := attrs, caching := caching && st.caching, volatile := st.volatile || extraVol || cmdVolatile sig.attrs })
+                ((if useCache then w.storeMeta rawQuery statusReady else w), .st { st with data := v, vars := st.vars.update vars, status := statusReady, commands := cmds, attrs := attrs, caching := caching && st.caching, volatile := st.volatile || extraVol || cmdVolatile sig.attrs })
               match cmdSem sig.ns sig.name st.data st.vars args with
               | .unmodelled => (w2, .unmodelled)
               | .raises => failState w2 attrs (extraVol || cmdVolatile sig.attrs)
@@ -154,8 +151,7 @@ mutual
               | .nocache v => done w2 v [] false
               | .subeval x qtext =>
                 -- `context.evaluate(q)` from inside the command: a child context on the global cache
-                let (w3, o) := evalTextO env n w2 qtext true ((rawQuery, selfOn) :: anc)
-                let w3 := if selfOn then w3.storeMeta rawQuery (s "evaluation") else w3
+                let (w3, o) := evalTextO env n w2 qtext true
                 (match o with
                  | .st sub =>
                    -- a failing sub-evaluation is reported with the position / query of *its* failing action
@@ -165,14 +161,14 @@ mutual
                  | .unmodelled => (w3, .unmodelled))
 
   /-- `evaluate_parameter` over the parameter list: converted parameters, or the outcome that aborts the evaluation -/
-  def evalParamsO (env : Env) : Nat → OW → List Param → Str → Str → Bool → Ancestors → OW × ((List PVal × Bool) ⊕ Outcome)
-    | 0, w, _, _, _, _, _ => (w, .inr .unmodelled)
-    | _ + 1, w, [], _, _, selfOn, _ => (w, .inl ([], selfOn))
-    | n + 1, w, p :: ps, rawQuery, parentQuery, selfOn, anc =>
+  def evalParamsO (env : Env) : Nat → OW → List Param → Str → Str → OW × (List PVal ⊕ Outcome)
+    | 0, w, _, _, _ => (w, .inr .unmodelled)
+    | _ + 1, w, [], _, _ => (w, .inl [])
+    | n + 1, w, p :: ps, rawQuery, parentQuery =>
       match p with
       | .str t pos =>
-        (match evalParamsO env n w ps rawQuery parentQuery selfOn anc with
-         | (w1, .inl (rest, on)) => (w1, .inl (.text t pos :: rest, on))
+        (match evalParamsO env n w ps rawQuery parentQuery with
+         | (w1, .inl rest) => (w1, .inl (.text t pos :: rest))
          | other => other)
       | .link lq pos =>
         let tbl := Gen.escapeTable
@@ -180,7 +176,7 @@ mutual
         let wg := w
         let (w1, o) : OW × Outcome :=
           if lq.absolute || parentQuery.isEmpty || parentQuery == ['/'] then
-            evalQO env n wg lq (lq.encode tbl) .none none true ((rawQuery, selfOn) :: anc)
+            evalQO env n wg lq (lq.encode tbl) .none none true
           else
             match lq with
             | .mk [.transform h as f] _ =>
@@ -189,17 +185,14 @@ mutual
                | none => (wg, .unmodelled)
                | some pq =>
                  let text := (Query.mk (pq.segments ++ [.transform h as f]) pq.absolute).encode tbl
-                 evalTextO env n wg text true ((rawQuery, selfOn) :: anc))
+                 evalTextO env n wg text true)
             | _ => (wg, .unmodelled)      -- "Only transform query supported in apply" (raises a plain Exception)
         match o with
         | .st v =>
-          -- after a sub-evaluation the context writes its progress once more (`store_metadata(force=True)`) and then switches its own
-          -- progress writes off (`enable_store_metadata = False`); log events still travel up to the contexts above
-          let w1 := if selfOn then w1.storeMeta rawQuery (s "evaluating dependencies") else w1
-          if v.isError then ((w1.ancMeta anc), .inr (.raised (some pos) (some rawQuery)))
+          if v.isError then (w1, .inr (.raised (some pos) (some rawQuery)))
           else
-            (match evalParamsO env n w1 ps rawQuery parentQuery false anc with
-             | (w2, .inl (rest, on)) => (w2, .inl (.expanded v.data pos :: rest, on))
+            (match evalParamsO env n w1 ps rawQuery parentQuery with
+             | (w2, .inl rest) => (w2, .inl (.expanded v.data pos :: rest))
              | other => other)
         | .raised a b => (w1, .inr (.raised a b))
         | .parseError => (w1, .inr .parseError)
